@@ -250,8 +250,8 @@ Definition sstep (bump : bumpfn) (tbl : list template) (s : sst) (o : sop) : sst
           else if (mnK >? 0) && (mxK >? 0) && (mnK >? mxK) then (s, OV_EINVAL_)
           else if dle damp dzero then (s, OV_EINVAL_)
           else if resbits <? 0 then (s, OV_EINVAL_)
-          else if dlt bias dzero then (s, OV_EINVAL_)
-          else if dlt done bias then (s, OV_EINVAL_)
+          else if negb (dge bias dzero) then (s, OV_EINVAL_)     (* !(bias >= 0.): NaN refused *)
+          else if negb (dle bias done) then (s, OV_EINVAL_)
           else
             ({| s_tmpl := s_tmpl s; s_ch := s_ch s; s_rate := s_rate s; s_managed := active; s_coupling := s_coupling s;
                 s_stone := s_stone s; s_min := mnK * 1000; s_av := avK * 1000; s_max := mxK * 1000; s_res := resbits;
